@@ -34,7 +34,7 @@ EXPLAIN = {
     "FitResult": "the attributes after fit() are not in the set Forecast!FitResultOK allows",
     "FixedTauUnchanged": "a supplied tau was not returned unchanged in tau_",
     "RoundTrip": "fit of noise-free production generated from the same curve does not recover M and tau to 1e-3",
-    "FixedTauOptimal": "with tau supplied, M_ is not the bounded least-squares optimum clip(sum(y rf)/sum(rf^2), lo, hi) to 1e-6",
+    "FixedTauOptimal": "with tau supplied, M_ is not the bounded least-squares optimum clip(sum(y rf)/sum(rf^2), lo, hi) (1e-6; 1e-4 when the optimum is a bound)",
     "Equivariant": "the same production in other units (y -> a y, bounds on M scaled) does not give (a M_, tau_) to 1e-6",
     "ScalingLaw": "forecast_cum differs from M * rf(t / tau)",
     "Linear": "forecast_cum(t, a M, tau) differs from a * forecast_cum(t, M, tau)",
